@@ -55,11 +55,14 @@ def strategy():
         lambda t: {'script': decode_script(t[0]), 'start': decode_start(t[1])})
     return st.fixed_dictionaries({
         'cos': st.lists(co, min_size=1, max_size=5),
+        # kill immediately followed by start (between two frames) of a running coroutine: it carries on, a waiting
+        # one is due in the next frame - and nobody else's schedule changes
+        'restarts': st.lists(st.integers(0, 24 * 5 - 1).map(lambda p: [p % 24, p // 24]), max_size=3),
         'dts': worldops.chunked(st.integers(0, 24).map(lambda k: k / 8 if k < 17 else (k - 16) * 1.0), 25,
                                 chunk=5).map(lambda l: l if len(l) >= 3 else l + [0.5] * (3 - len(l)))})
 
 
-def check_schedule(cos, dts):
+def check_schedule(cos, dts, restarts=()):
     """Run the implementation on the schedule and compare with the reference model.
 
     cos: list of {'script': {'cyclic', 'yields'}, 'start': ['outside', f] | ['inside', j, k]}
@@ -135,6 +138,21 @@ def check_schedule(cos, dts):
                 started[i] = True
                 proc.start(gens[i])
                 state[i] = NEW
+        restarted = set()
+        for (rf, ri) in restarts:
+            i = ri % n
+            if rf == f and started[i] and state[i] in (RUN, WAIT, NEW, 'new_inside'):
+                try:
+                    proc.kill(gens[i])
+                    proc.start(gens[i])
+                except Exception as exc:
+                    raise PropertyViolation('kill_then_start_of_a_running_coroutine_raised',
+                                            {'frame': f, 'coroutine': i, 'exception': repr(exc)})
+                if state[i] == WAIT:
+                    state[i] = RUN
+                    remaining[i] = None
+                restarted.add(i)
+                facts['restart_between_frames'] += 1
         del log[:]
         del started_inside[:]
         waiting_before = [i for i in range(n) if state[i] == WAIT]
@@ -152,7 +170,8 @@ def check_schedule(cos, dts):
                     facts['woken'] += 1
             elif state[i] in (RUN, NEW):
                 must.append(i)
-        carried = [i for i in range(n) if state[i] == RUN]       # runnable in the previous frame already
+        # runnable in the previous frame already (a coroutine restarted just now may have changed its place)
+        carried = [i for i in range(n) if state[i] == RUN and i not in restarted]
         new_inside_prev = [i for i in range(n) if state[i] == 'new_inside']
         must += new_inside_prev
         expected = collections.Counter()
@@ -191,7 +210,7 @@ def check_schedule(cos, dts):
 
 
 def run_case(case):
-    facts = check_schedule(case['cos'], case['dts'])
+    facts = check_schedule(case['cos'], case['dts'], [tuple(r) for r in case.get('restarts', ())])
     nontrivial = (len(case['cos']) >= 2 and facts['overlapping_waits_different_deadlines']
                   and facts['waits_again_after_queue_emptied'])
     return {'nontrivial': bool(nontrivial), 'classes': sorted(k for k, v in facts.items() if v),
